@@ -1334,7 +1334,7 @@ def check_case(case):
             if not _fails_in_fresh_process(case, hang=True):
                 _state["flaky"].append("hang (not in a fresh process): %s" % f.detail[:300])
                 return None, labels + ["flaky:hang"], obs
-        elif _tainted() or _state.get("fresh_confirmed", 0) < FRESH_CONFIRMATIONS:
+        elif _tainted() or os.environ.get("C07_ALWAYS_FRESH") or _state.get("fresh_confirmed", 0) < FRESH_CONFIRMATIONS:
             # A worker executes thousands of lines in one interpreter; a thread that an earlier case left behind may
             # still sit inside xonsh's shared stream swap, hold pipes or close descriptor numbers that are in use again.
             # What fails three times here but not in a fresh interpreter is the after-effect of that earlier case (C09's
@@ -2175,6 +2175,9 @@ def self_check():
 
 
 def main(run):
+    if run.tier == "thorough":
+        # half an hour of pipelines on a loaded machine: every unattributed symptom must also fail in a fresh interpreter
+        os.environ["C07_ALWAYS_FRESH"] = "1"
     self_check()
     _setup(run.scratch)
     try:
